@@ -154,15 +154,24 @@ NOISE = {
 }
 
 
-def canon(e, rename, depth=0):
-    """render an expression without block numbers / versions, applying the renaming"""
+def canon(e, rename, depth=0, rewrite=None, pname=None):
+    """render an expression without block numbers / versions, applying the renaming; `rewrite`
+    may replace a sub-expression (return None to keep it), `pname` names parameters"""
     if not isinstance(e, tuple) or not e:
         return str(e)
     if depth > 14:
         return "…"
+    if rewrite is not None:
+        r = rewrite(e, depth)
+        if r is not None:
+            if isinstance(r, str):
+                return r
+            e = r
     k = e[0]
-    c = lambda x: canon(x, rename, depth + 1)
+    c = lambda x: canon(x, rename, depth + 1, rewrite, pname)
     if k == "param":
+        if pname is not None:
+            return pname(e[1])
         return "arg%d" % e[1]
     if k == "int":
         return str(e[1])
@@ -210,7 +219,7 @@ def canon(e, rename, depth=0):
     return k
 
 
-def events(f, rename=lambda s: s, significant=None):
+def events(f, rename=lambda s: s, significant=None, rewrite=None, pname=None):
     """ordered list of (kind, text): significant calls in DFS order of the normal CFG, stores to
     memory, and the returned value(s)"""
     out = []
@@ -232,7 +241,7 @@ def events(f, rename=lambda s: s, significant=None):
         for i, st in enumerate(blk["stmts"]):
             if st["k"] == "assign" and mir.place_has_deref(st["place"]):
                 tgt = ".".join(mir.place_fields(st["place"])) or "*"
-                out.append(("store", "%s := %s" % (tgt, canon(f.deep_simplify(f.rvalue_expr(st["rv"], b, i)), rename))))
+                out.append(("store", "%s := %s" % (tgt, canon(f.deep_simplify(f.rvalue_expr(st["rv"], b, i)), rename, 1, rewrite, pname))))
         t = blk["term"]
         if t["k"] == "call":
             path = mir.callee_path(t) or "indirect"
@@ -244,10 +253,10 @@ def events(f, rename=lambda s: s, significant=None):
                 continue
             if significant is not None and not significant(name, t):
                 continue
-            args = [canon(f.deep_simplify(a), rename) for a in f.call_args(b)]
+            args = [canon(f.deep_simplify(a), rename, 1, rewrite, pname) for a in f.call_args(b)]
             out.append(("call", "%s(%s)" % (name, ", ".join(args))))
         elif t["k"] == "return":
-            out.append(("return", canon(f.deep_simplify(f.return_expr(b)), rename)))
+            out.append(("return", canon(f.deep_simplify(f.return_expr(b)), rename, 1, rewrite, pname)))
         elif t["k"] == "yield":
             out.append(("yield", ""))
     return out
